@@ -227,6 +227,13 @@ def shard(args):
             cases.append((key, cfg, ops))
             meta[key] = (exp, cname, cfg, ops, req)
             key += 1
+        if trig in ('host_mismatch', 'host_mismatch_port', 'host_missing', 'hostu_invalid', 'hosth_invalid', 'te_cl', 'multi_cl_same', 'folded_cl') and not req.startswith(b'CONNECT'):
+            # the indicator belongs to every request that shows the trigger, also the second and third of a keep-alive connection that
+            # repeat the first byte for byte (same Host value, same target)
+            ops = [(REQ, req), (RES, res), (REQ, req), (RES, res), (REQ, req[:len(req) // 2]), (REQ, req[len(req) // 2:]), (RES, res), (CLOSE, None)]
+            cases.append((key, cfg, ops))
+            meta[key] = (exp, 'repeat', cfg, ops, req)
+            key += 1
         if exp.get('early'):
             he = req.index(b'\r\n\r\n') + 4
             eres = ('HTTP/1.1 %s\r\nContent-Length: 0\r\n\r\n' % exp['early']).encode()
@@ -259,9 +266,15 @@ def shard(args):
         txs = d.get('tx', [])
         t = txs[0] if txs else None
         errs = []
-        if t is None:
-            errs.append(('no_tx', 'no transaction'))
-        else:
+        if cname == 'repeat':
+            out['trig']['repeated_on_connection'] = out['trig'].get('repeated_on_connection', 0) + 1
+            if len(txs) != 3 or any(x is None for x in txs):
+                errs.append(('repeat_tx_count', '%d transactions for three identical requests on one connection' % len(txs)))
+        for ti, t in enumerate(txs if cname == 'repeat' else [t]):
+          if t is None:
+            if cname != 'repeat':
+                errs.append(('no_tx', 'no transaction'))
+          else:
             if (t['flags'] & exp['need']) != exp['need']:
                 errs.append(('missing_indicator:' + exp['trigger'], 'flags 0x%x lack 0x%x for trigger %s (%s-form target, %s delivery%s)' % (t['flags'], exp['need'], exp['trigger'], exp.get('target_form'), cname, ', folded ' + exp['folded'] if exp.get('folded') else '')))
             if exp['chunked']:
